@@ -140,10 +140,14 @@ type checker struct {
 	c       *mon.Case
 	n       int64
 	nontriv int64
+	long    int64
 }
 
 func (k *checker) one(target string, compareRef bool) bool {
 	k.n++
+	if len(target) > 128 {
+		k.long++
+	}
 	if strings.ContainsAny(target, ".%") {
 		k.nontriv++
 	}
@@ -218,14 +222,21 @@ func work(w *mon.W) {
 	w.Cases("random", uint64(w.Pick(400, 5000)), func(c *mon.Case) {
 		k := &checker{w: w, c: c}
 		r := c.R
-		rt := []string{"/", "/", ".", "..", "a", "b", "%2e", "%2E", "%2f", "%2F", "%", "%25", "%252e", "%252f", "\\", "%5c", "%00", "\x00", " ", "+", ";", "%c0%af", "%e0%80%af", "..;", "%2e%2e%2f"}
+		rt := []string{"/", "/", ".", "..", "a", "b", "*", "%2e", "%2E", "%2f", "%2F", "%", "%25", "%252e", "%252f", "\\", "%5c", "%00", "\x00", " ", "+", ";", "%c0%af", "%e0%80%af", "..;", "%2e%2e%2f"}
 		for it := 0; it < 1000; it++ {
 			var sb strings.Builder
 			if r.Chance(10) {
 				sb.WriteString(r.Str("http://host", "https://h:1", "//host"))
 			}
+			if r.Chance(8) {
+				sb.WriteString(r.Str("*", "*a", "*/", "*%2e%2e")) // asterisk-form and other rootless targets
+			}
+			long := r.Chance(4) // paths beyond 128 bytes leave CleanPath's stack buffer
 			for n := 1 + r.Intn(24); n > 0; n-- {
 				sb.WriteString(rt[r.Intn(len(rt))])
+				if long && r.Chance(6) {
+					sb.WriteString(strings.Repeat(r.Str("a", "b", "x"), 40+r.Intn(200)))
+				}
 			}
 			base := sb.String()
 			compare := !strings.ContainsAny(base, "\x00 ") && !strings.HasPrefix(base, "http") && !strings.HasPrefix(base, "//")
@@ -243,6 +254,7 @@ func work(w *mon.W) {
 		}
 		w.Count("targets_checked", k.n)
 		w.Count("random_targets", k.n)
+		w.Count("random_targets_longer_than_128_bytes", k.long)
 		w.Shape(mon.Hash64("random", int(c.I)))
 	})
 	// StaticFS with a canary outside the root
@@ -251,6 +263,9 @@ func work(w *mon.W) {
 
 func (k *checker) oneSuffix(pathPart, target string, compareRef bool) bool {
 	k.n++
+	if len(pathPart) > 128 {
+		k.long++
+	}
 	k.u.Parse([]byte("h"), []byte(target))
 	got := string(k.u.Path())
 	if msg := containment(got); msg != "" {
